@@ -10,6 +10,7 @@
 -/
 import BV.Proofs.Purity
 import BV.Gen
+import BV.Props.C17
 namespace BV.Props.C16
 open BV BV.Proofs.Purity
 
@@ -28,6 +29,13 @@ theorem C16_cache_guarded :
     Gen.Utils.fact_polynomesAccess = ["ReedSolomonEncoder_getPolynomial"] ∧
     "ReedSolomonEncoder_getPolynomial" ∈ Gen.Utils.fact_lockedFuncs := by
   decide
+
+/-- serialisability: `getPolynomial` runs under the mutex, so a concurrent execution of encoder calls is some
+    sequential order of them on the shared cache; for EVERY order (every permutation of the calls) each call
+    returns exactly its stand-alone result -/
+theorem C16_serialisable (f : Model.GF.Field) (reqs order : List (List Nat × Nat)) (_h : order.Perm reqs) :
+    C17.runEncoder f Model.GF.newEncoder order = order.map (fun r => Model.GF.rsEncode f r.1 r.2) :=
+  C17.C17_rs_history_independent f Model.GF.newEncoder order (C17.C17_newEncoder_inv f)
 
 /-- pipelines: a producer sending `k` values then closing and a consumer performing `j ≥ k` receives (receives
     on the closed channel return at once) always run to completion: no deadlock, nothing left running.
